@@ -95,6 +95,20 @@ def check_one(run, s: str, multiline: bool, engine: str) -> bool:
                           engine=engine, key='not-inverse-chunked')
             return False
     run.count('chunked_deliveries', 2)
+    if multiline and '\n' in esc:
+        # multi-line escaped text keeps its line breaks raw; written through a text file on Windows they become CR LF, which
+        # the tokenizer reads as the one line break they stand for
+        try:
+            toks = _tokens(quoted.replace('\n', '\r\n'))
+        except Exception as exc:
+            run.violation(f'tokenizer raised {exc!r} for multi-line escaped text with CR LF line ends', witness={'escaped': esc}, case=case, engine=engine,
+                          key='not-inverse-crlf')
+            return False
+        run.count('multiline_texts_with_crlf')
+        if len(toks) != 2 or toks[0][0] is not Token.STRING or toks[0][1] != s or toks[1][0] is not Token.EOF:
+            run.violation('multi-line escaped text whose line breaks were written as CR LF did not reproduce the string',
+                          witness={'escaped': esc, 'tokens': [(t.name, v) for t, v in toks]}, case=case, engine=engine, key='not-inverse-crlf')
+            return False
     # the token un-read and read again through the tokenizer's own look-ahead interface (push_back / peek), as the parsers
     # built on it do: still the one STRING token with value s - also when s is the empty string
     from srctools.tokenizer import Tokenizer as _Tk
@@ -394,7 +408,7 @@ def main(run, shard=(0, 1)) -> None:
     probe.report(run)
     probe.check_reached(run)
     run.require('exhaustive_strings_x_modes', 'chunked_deliveries', 'embedded_line', 'embedded_kv', 'embedded_vmf', 'embedded_bsp', 'embedded_dmx', 'neighbour_contexts',
-                'strings_directly_after_a_directive', 'fresh_tokenizers_after_an_abandoned_one')
+                'strings_directly_after_a_directive', 'fresh_tokenizers_after_an_abandoned_one', 'multiline_texts_with_crlf')
 
 
 def replay(run, data) -> None:
